@@ -21,9 +21,15 @@ model = p.stdout.decode("utf-8", "replace").splitlines()
 e2e = [i for i, c in enumerate(cases) if c.startswith("e2e ")]
 bad = [i for i in e2e if not model[i].startswith("skip") and model[i].split(" ## ")[0] != impl[i]]
 skips = collections.Counter(model[i] for i in e2e if model[i].startswith("skip"))
+three = [i for i in e2e if not model[i].startswith("skip") and len(model[i].split(" ## ")) >= 3]
+specbad = [i for i in three if model[i].split(" ## ")[1] != impl[i]]
+specclasses = collections.Counter(model[i].split(" ## ")[2] for i in specbad)
 kinds = collections.Counter(impl[i].split(" ")[0] for i in e2e)
 print(f"{pid} seed={seed}: {len(cases)} cases ({len(e2e)} e2e, {sum(len(cases[i]) for i in e2e)//1024} KiB), gen {t1-t0:.1f}s driver {t2-t1:.1f}s; e2e disagreements={len(bad)} skips={sum(skips.values())} {dict(skips)}")
 print("  results:", dict(kinds))
+print(f"  spec answered {len(three)} cases; implementation != spec on {len(specbad)} {dict(specclasses)}")
+for i in [j for j in specbad if not model[j].split(" ## ")[2].startswith(("D10", "D15"))][:shown]:
+    print("--- SPEC", descs[i][:700]); print("   impl :", impl[i][:400]); print("   spec :", model[i].split(" ## ")[1][:400], model[i].split(" ## ")[2])
 for i in bad[:shown]:
     print("---", descs[i] if i < len(descs) else "")
     print("   impl :", impl[i][:600])
